@@ -132,6 +132,12 @@ func pureFilterSrc(fn *ssa.Function, isSrc func(ssa.Value) bool) (bool, string) 
 					return false, "an appended element is computed, not copied from the input (fragments would be altered or invented)"
 				}
 				src, ok := ld.X.(*ssa.IndexAddr)
+				if ok {
+					// `for rest := input; len(rest) > 0; rest = rest[1:]` with rest[0]: the input front to back
+					if base, isCur := eng.ShrinkingCursor(src); isCur && isSrc(base) {
+						continue
+					}
+				}
 				if !ok || !isSrc(src.X) {
 					return false, "an appended element does not come from the input slice"
 				}
